@@ -19,10 +19,20 @@
  * oracle per (A, x, k): no crash / ASan report (process death, captured by the
  * framework); the call returns its documented failure value or a result that
  * passes A's functional oracle (round trip equals the input, set equals the
- * 65536-bit model, metadata equals the model); after the harness has released
- * what it owns, the interposer's live-block count grew by no more than in the
- * fault-free run; dictionaries and bitmaps are then read back (state must be
- * the pre-call or the post-call model) and used again.
+ * 65536-bit model, analysis results equal those of the fault-free run); after
+ * the harness has released what it owns, the interposer's live-block count
+ * grew by no more than in the fault-free run; dictionaries and bitmaps are
+ * then read back (state must be the pre-call or the post-call model) and used
+ * again.
+ *
+ * Every functional oracle goes through public APIs only.  "Success with
+ * output that decodes to something else" is decided by decoding the reported
+ * bytes with the library's own decoder - from a zero padded copy (clean value
+ * verdict) and from an exact-size copy (a decoder that dies or over-reads on
+ * bytes a faulted call reported as a successful encoding is the finding; the
+ * framework keeps the in-flight case) - never by parsing the payload: no
+ * property fixes the wire layout of PFOR, dictionary, float or bitmap
+ * streams, nor the container a bitmap uses.
  *
  * A fault-free run that already fails its functional oracle belongs to
  * C02/C06/C07/C08: the case is skipped and counted (baseline-unusable.<api>).
